@@ -41,21 +41,20 @@ def check(ctx: Ctx, rep: Report):
     rejected = prog.cls("RequestRejectedException")
     # ---- R1 table
     mb = prog.modules["goodwe.modbus"]
-    b = prog.lookup(mb, "FAILURE_CODES")          # defined here or imported (under this or another name)
-    if not b or b[0] != "const":
-        raise AnalysisError("modbus.FAILURE_CODES not found")
-    try:
-        table = prog.consteval(ast.Name(id="FAILURE_CODES", ctx=ast.Load()), mb)
-    except NotConst as e:
-        raise AnalysisError("FAILURE_CODES is not a constant table: %s" % e)
-    for code, text in MODBUS_EXCEPTION_CODES.items():
-        rep.check(table.get(code) == text, "C08.R1", "code:%d" % code, mb.relpath, "code %d -> %s" % (code, text),
-                  bad="FAILURE_CODES[%d] is %r, the Modbus reason is %r" % (code, table.get(code), text))
-    extra = sorted(set(table) - set(MODBUS_EXCEPTION_CODES))
-    rep.check(not extra, "C08.R1", "codes:extra", mb.relpath, "no codes beyond the standard table",
-              bad="FAILURE_CODES has non-standard codes %s" % extra)
+    table = failure_table(ctx)
+    if isinstance(table, dict):
+        for code, text in MODBUS_EXCEPTION_CODES.items():
+            rep.check(table.get(code) == text, "C08.R1", "code:%d" % code, mb.relpath, "code %d -> %s" % (code, text),
+                      bad="FAILURE_CODES[%d] is %r, the Modbus reason is %r" % (code, table.get(code), text))
+        extra = sorted(set(table) - set(MODBUS_EXCEPTION_CODES))
+        rep.check(not extra, "C08.R1", "codes:extra", mb.relpath, "no codes beyond the standard table",
+                  bad="FAILURE_CODES has non-standard codes %s" % extra)
+    else:
+        # another representation of the table: what counts is the reason each raise site produces per code byte (below)
+        rep.ok("C08.R1", "codes:representation", mb.relpath, "FAILURE_CODES is a %s; the reasons are checked per raise site for all 256 code bytes" % type(table).__name__)
     # message flow at the raise sites
     nsites = 0
+    nexh = [0]
     for fam in fams.values():
         if fam.kind == "aa55":
             continue
@@ -73,15 +72,25 @@ def check(ctx: Ctx, rep: Report):
             nsites += 1
             call = p.end_node.exc
             why = []
+            msym = r.sym
+            via = p.inlined_return(call) if isinstance(call, ast.Call) else None
+            if via is not None:           # raise make_rejection(code): the exception is what the helper constructs
+                msym, call = r.sym_at(via[0]), via[1]
             if not (isinstance(call, ast.Call) and len(call.args) == 1):
                 why.append("RequestRejectedException is not built from exactly one message argument")
             else:
-                msg = r.sym.lin(call.args[0]).single_term()
+                msg = msym.lin(call.args[0]).single_term()
                 want_default = ("const", repr(UNKNOWN_REASON))
                 ok_msg = msg is not None and msg[0] == "call" and msg[1] == "FAILURE_CODES.get" and len(msg[2]) == 2 \
-                    and msg[2][0] == code_t and msg[2][1] == want_default
+                    and msg[2][0] == code_t and msg[2][1] == want_default and isinstance(table, dict)
                 if not ok_msg:
-                    why.append("message is %s, not FAILURE_CODES.get(%s[%d], 'UNKNOWN')" % (norm(call.args[0]), data, fam.fc + 1))
+                    # any other spelling: the message expression is evaluated for each of the 256 values of the code byte
+                    wrong = _reasons_differ(ctx, fam, p, p.end_node.exc, call, data)
+                    if wrong is None:
+                        why.append("message is %s, not FAILURE_CODES.get(%s[%d], 'UNKNOWN')" % (norm(call.args[0]), data, fam.fc + 1))
+                    elif wrong:
+                        why.append("for exception code %d the reason reported is %r, the Modbus reason is %r (message %s)" % (wrong[0] + (norm(call.args[0])[:50],)))
+                    nexh[0] += 1
             _, excluded, equals = domain_constraints(r.facts, fc_t)
             ne_cmd = any(f.kind == "ne" and set(f.lin.terms) == {fc_t, cmd_t} for f in r.facts)
             if not ne_cmd:
@@ -196,6 +205,57 @@ def r2(ctx, rep, rejected):
                   bad="%s no longer lets RequestRejectedException through (converted or swallowed)" % name)
 
 
+def _reasons_differ(ctx, fam, p, raised: ast.expr, ctor: ast.Call, data: str):
+    """The message expression of a rejection, as a function of the code byte alone, evaluated for 0..255 and compared
+    with the Modbus reasons: [] when all agree, [(code, got, want)] for the first difference, None when the expression
+    is not a closed function of that byte (then the symbolic shape decides)."""
+    from ..astutil import expand_locals, subst
+    prog = ctx.prog
+    v = fam.validator
+    e = ctor.args[0]
+    via = p.inlined_return(raised) if isinstance(raised, ast.Call) else None
+    if via is not None:
+        g = next((ev.data for ev in p.events if ev.kind == "enter" and ev.node is raised), None)
+        if g is None:
+            return None
+        e = expand_locals(e, g.node)
+        env = {}
+        for pn in g.params:
+            a = arg_for(raised, g, pn)
+            if a is not None:
+                env[pn] = a
+        e = subst(e, env)
+        mod = g.module
+    else:
+        mod = v.module
+    e = expand_locals(e, v.node)
+    idx = fam.fc + 1
+
+    class Put(ast.NodeTransformer):
+        def __init__(self, c):
+            self.c = c
+
+        def visit_Subscript(self, n):
+            if isinstance(n.value, ast.Name) and n.value.id == data and not isinstance(n.slice, ast.Slice):
+                try:
+                    if prog.consteval(n.slice, v.module) == idx:
+                        return ast.copy_location(ast.Constant(value=self.c), n)
+                except NotConst:
+                    pass
+            return self.generic_visit(n)
+    import copy
+    for c in range(256):
+        ec = ast.fix_missing_locations(Put(c).visit(copy.deepcopy(e)))
+        try:
+            got = prog.consteval(ec, mod)
+        except NotConst:
+            return None
+        want = MODBUS_EXCEPTION_CODES.get(c, UNKNOWN_REASON)
+        if got != want:
+            return [(c, got, want)]
+    return []
+
+
 def failure_table(ctx):
     prog = ctx.prog
     mb = prog.modules["goodwe.modbus"]
@@ -245,7 +305,7 @@ def r3(ctx, rep, rejected, table, rule: str = "C08.R3"):
                         v = prog.consteval(other[0], f.module)
                     except NotConst:
                         v = None
-                    rep.check(v in table.values(), rule, "cmp:%s:%s" % (m.short, norm(cmp_)), f.loc(cmp_),
+                    rep.check(v in (table.values() if isinstance(table, dict) else table), rule, "cmp:%s:%s" % (m.short, norm(cmp_)), f.loc(cmp_),
                               "%s compares the rejection message with the table value %r" % (m.short, v),
                               bad="%s compares ex.message with %s (%r), which is not a reason the validators can produce" % (f.short, norm(other[0]), v))
                 if used:
